@@ -259,3 +259,11 @@ def _view_source(t):
         else:
             return None
     return None
+
+
+FIXTURE_EXPECT = ['adapter-trait-items', 'destructive:filesystem-remove_file', 'unguarded-map']
+
+
+def thorough(res):
+    from .. import engine
+    engine.sensitivity("C11", res)
